@@ -434,6 +434,11 @@ def replay_drift(inputs):
     # add a rigid random-walk drift to everything
     g = np.cumsum(rng.normal(scale=0.01, size=(len(traj), 1, 3)), axis=0)
     base_pos = np.array(traj.positions)
+    if inputs.get('tiny'):
+        # reference atoms that barely move: a rigid drift of 1e-7 per frame and nothing else (the correction must still remove it exactly)
+        g = np.cumsum(np.full((len(traj), 1, 3), 1e-7) * np.array([1.0, -2.0, 0.5]), axis=0)
+        frame_cols = [k for k, sp_ in enumerate(traj.species) if sp_.symbol != 'Li']
+        base_pos[:, frame_cols] = base_pos[0, frame_cols]
     if inputs.get('closed_loop'):
         # the reference (framework) atoms only follow a rigid drift that returns to its starting point: per-frame drift is non-zero, its
         # sum over time is zero
@@ -450,10 +455,10 @@ def replay_drift(inputs):
         d = tr.displacements
         return d[:, mask].mean(axis=1)[:, None, :]
     # selecting several species keeps the atoms (and their coordinates) in source order
-    for sel in (['O', 'Li'], ['N', 'P', 'O'], 'Li'):
+    for sel in (['O', 'Li'], ['N', 'P', 'O'], 'Li', ('O', 'Li'), frozenset(['P', 'N']), {'O': 1, 'Li': 2}.keys(), ('Li',)):
         try:
             ft = tr.filter(sel)
-            want = [k for k, s_ in enumerate(symbols) if s_ in (sel if isinstance(sel, list) else [sel])]
+            want = [k for k, s_ in enumerate(symbols) if s_ in ([sel] if isinstance(sel, str) else list(sel))]
             if [s_.symbol for s_ in ft.species] != [symbols[k] for k in want] or not np.allclose(ft.positions, tr.positions[:, want], atol=1e-12):
                 bad.append(f'filter({sel}) does not return the selected atoms in source order')
         except Exception as e:
@@ -482,7 +487,7 @@ def replay_drift(inputs):
     try:
         c = tr.apply_drift_correction(fixed_species=fixed)
         dc = c.displacements
-        if np.abs(dc[:, mask_fixed].mean(axis=1)).max() > 1e-12:
+        if np.abs(dc[:, mask_fixed].mean(axis=1)).max() > (1e-12 if not inputs.get('tiny') else 1e-15):
             bad.append('mean displacement of the reference species is not zero after correction')
         if not np.allclose(c.positions[0], tr.positions[0], atol=1e-12) or c.species != tr.species or c.time_step != tr.time_step or c.metadata != tr.metadata \
                 or not np.allclose(c.get_lattice().matrix, tr.get_lattice().matrix):
@@ -512,7 +517,7 @@ def bounded_drift(tier, seed):
                'str / list / set selections', 'seeded random; every case non-trivial (non-zero drift); distinct by seed')
     rng = np.random.default_rng(seed + 1313)
     for c in range(n):
-        inp = {'seed': int(rng.integers(1, 10 ** 6)), 'species_cls': ['Element', 'Species', 'SpeciesOx'][c % 3], 'closed_loop': c % 4 == 1}
+        inp = {'seed': int(rng.integers(1, 10 ** 6)), 'species_cls': ['Element', 'Species', 'SpeciesOx'][c % 3], 'closed_loop': c % 4 == 1, 'tiny': c % 4 == 3}
         r = st.guard(replay_drift, inp)
         if r is None:
             continue
